@@ -149,7 +149,9 @@ func (lm *lemmas) index(in ssa.Instruction, s, idx ssa.Value) (ok bool, why stri
 	fk := lm.p.FuncKey(fn)
 	ds, di := recvFieldExpr(fn, s), recvFieldExpr(fn, idx)
 	switch {
-	case fk == "lexer.(*Scanner).advance" && ds == "$.source" && di == "$.current":
+	// (the rune advance hands back is source[current] read before the step, or source[current-1] read after it: which of
+	// the two the code means is settled by the reference words of the primitive, part of lemma b)
+	case fk == "lexer.(*Scanner).advance" && ds == "$.source" && (di == "$.current" || di == "($.current-1)"):
 		ok, why = lm.lexerAdvanceSafe()
 		return ok, why, true
 	case lm.parserCursorIndex(fn, fk, ds, di):
